@@ -266,6 +266,9 @@ template<class G> struct Pred2 {
       int expect = (len>0 && !(dk < e)) ? 1 : 0;
 #endif
       o.scalar(S(thrown)); o.scalar(S(expect));
+      // the other validating entry points: construction from a mutable / const view of the data (the converting constructors)
+      { DG buf = data; int th=0; try{ Eigen::Map<G> m(buf.data()); G X(m); (void)X; } catch(const manif::invalid_argument&){ th=1; } o.scalar(S(th)); o.scalar(S(expect)); }
+      { DG buf = data; int th=0; try{ Eigen::Map<const G> m(buf.data()); G X(m); (void)X; } catch(const manif::invalid_argument&){ th=1; } o.scalar(S(th)); o.scalar(S(expect)); }
       // normalize() makes any non-degenerate data acceptable
       { G X; X.coeffs() = data; int t2=0; try{ Expect<G>::normalize(X); G Y(X.coeffs()); (void)Y; } catch(const manif::invalid_argument&){ t2=1; } o.scalar(S(t2)); o.scalar(S(0)); }
       return true;
